@@ -122,6 +122,21 @@ func gen(g *vh.Gen) {
 		}
 		g.Emit("lines", g.Pick("mem", "file"), strings.Join(h, ","))
 	}
+	// block boundaries of buffered writers: a pad line of d bytes, then thousands of dot-led lines of one length, so
+	// that for some d a dot-led line ends exactly at every multiple of 4 KiB .. 64 KiB of the stuffed stream
+	for _, dl := range []string{".", ".a", "..", ".abc"} {
+		for d := 0; d < len(dl)+3; d++ {
+			ls := []string{"Subject: boundary", "", strings.Repeat("x", d)}
+			for k := 0; k < 70000/(len(dl)+3); k++ {
+				ls = append(ls, dl)
+			}
+			h := make([]string, len(ls))
+			for j, l := range ls {
+				h[j] = vh.HS(l)
+			}
+			g.Emit("lines", g.Pick("mem", "file"), strings.Join(h, ","))
+		}
+	}
 	// one transaction, several deliveries: 2-4 recipients (distinct mailboxes, the same one twice): EVERY copy
 	// must carry the client's bytes, through every read interface
 	for i := 0; i < g.N(60, 1500); i++ {
